@@ -4,7 +4,7 @@ From Cedar Require Export Model.Negotiate Model.Handshake.
 Import ListNotations.
 Local Open Scope Z_scope.
 
-Inductive case :=
+Inductive case1 :=
 | CCli (c : cfg) (s : sscript) (err auth enc : bool) (m : meth) (ran : list (meth * bool)) (encrypted : bool)
 | CSrv (c : cfg) (s : cscript) (err auth enc : bool) (m : meth) (ran : list (meth * bool)) (encrypted : bool).
 
@@ -24,11 +24,16 @@ Definition cmp (o : outcome) (err auth enc : bool) (m : meth) (ran : list (meth 
       && ran_eqb (g_ran r) ran && Bool.eqb (g_encrypted r) encrypted
   end.
 
-Definition check_case (c : case) : bool :=
+Definition check1 (c : case1) : bool :=
   match c with
   | CCli cf s err auth enc m ran e => cmp (client_hs cf s) err auth enc m ran e
   | CSrv cf s err auth enc m ran e => cmp (server_hs cf s) err auth enc m ran e
   end.
+
+(* a case of the correspondence run is a small batch of runs (fewer, larger
+   case files: Coq's start-up dominates the evaluation time) *)
+Definition case := list case1.
+Definition check_case (c : case) : bool := forallb check1 c.
 
 Fixpoint mism (i : nat) (cs : list case) : list nat :=
   match cs with
